@@ -162,6 +162,11 @@ class InputDataStorage:
                     if current_sample_name == new_sample_name:
                         logger.critical("Change experiment name %s and rerun IsoQuant" % current_sample_name)
                         exit(-1)
+                    new_name_index = current_index
+                    while new_sample_name in experiment_names:
+                        # the generated name may be taken as well
+                        new_name_index += 1
+                        new_sample_name = self.experiment_prefix + str(new_name_index)
                     logger.warning("Duplicate folder prefix %s, will change to %s" %
                                    (current_sample_name, new_sample_name))
                     current_sample_name = new_sample_name
@@ -228,6 +233,11 @@ class InputDataStorage:
                     if current_sample_name == new_sample_name:
                         logger.critical("Change experiment name %s and rerun IsoQuant" % current_sample_name)
                         exit(-1)
+                    new_name_index = current_index
+                    while new_sample_name in experiment_names:
+                        # the generated name may be taken as well
+                        new_name_index += 1
+                        new_sample_name = self.experiment_prefix + str(new_name_index)
                     logger.warning("Duplicate folder prefix %s, will change to %s" %
                                    (current_sample_name, new_sample_name))
                     current_sample_name = new_sample_name
